@@ -2,10 +2,12 @@ HOOKS = {
     "guard": "cargo feature verif-hooks",
     "enable": "the Kani harness crate /verif/kani depends on ldpc-toolbox by path with features=[\"verif-hooks\"]; Verus units need no hook",
     "baseline_off_cmd": "cd /repo && cargo test --workspace --no-fail-fast --offline",
-    "source_commits": [],
+    "source_commits": ["6155b19", "8e03229", "6ff9772", "2661706"],
     "add_only": True,
 }
 ENGINES = [
+    {"name": "kani", "path": "/verif/lib/kanirun.py", "serves_properties": ["C04", "C05", "C14", "C15", "C18"],
+     "kind_free_text": "Kani 0.68 / CBMC 6.11 on the compiled real crate (/verif/kani, path dependency on /repo with feature verif-hooks); one process per harness, memory-budgeted; failing harnesses are replayed natively through Kani's concrete playback"},
     {"name": "verus", "path": "/verif/lib/verusrun.py", "serves_properties": ["C17", "C06", "C07", "C01", "C10"],
      "kind_free_text": "Verus 0.2026.09.13 (z3) on text extracted from /repo/src on every run by /verif/tools/extract (syn AST anchors, byte-copied bodies)"},
 ]
@@ -48,13 +50,43 @@ CHECKS["C10"] = {
     "text": "Unbounded proof that decode() of both schedules reads no buffer that has not been rewritten since entry, so each call returns what a fresh decoder returns; state-independence per call gives every finite history.",
     "note": "Trusted: the functional claims of initialize/process_* (each buffer in a callee's write set is completely rewritten from the named inputs), scratch state inside arithmetic objects abstracted by rules(); staleness inside the trusted callees or inside an arithmetic's scratch buffers is visible only to the bounded Kani harnesses.",
 }
+CHECKS["C05"] = {
+    "engine": "kani",
+    "design_ref": "DESIGN.md section 5, C05",
+    "technique": "Kani symbolic harnesses stating the postcondition of the public trait methods of each 8-bit arithmetic (contract of new() proved separately and reused through a guarded constructor hook)",
+    "text": "For each of the sixteen 8-bit arithmetics, complete over the stated domains: the quantiser for every f64 bit pattern (no panic, [-127,127], round-half-away(8x) saturated); clip for every i16; the variable rule (exactly n sends in order, saturating sums, Jones and degree-one clipping per the name, never -128, Kani's overflow checks on) for every message vector of every degree 1..8 in the quick tier and 1..200 in the thorough tier; layered update == flooding check rule on the extrinsics plus the new message at check degrees 2 and 3 inside |variable LLR| <= 508.",
+    "note": "Trusted: Kani/CBMC/CaDiCaL. The float arithmetics' variable rule is not covered. Layered/flooding consistency is bounded to check degrees 2 and 3 (labelled bounded in the evidence). The quick tier's degree bound 8 is a bounded stand-in for the thorough tier's complete 1..200.",
+}
+CHECKS["C04"] = {
+    "engine": "kani",
+    "design_ref": "DESIGN.md section 5, C04",
+    "technique": "Kani symbolic harnesses over every 8-bit message vector at check degrees 2 and 3 against checker-side recurrences over the documented correction table",
+    "text": "Sixteen 8-bit arithmetics, every vector in [-127,127]^d for d = 2, 3 (the domain the property calls exhaustive; d = 4 generic clauses in the thorough tier): one message per neighbour, sign = product of the other signs when non-zero, magnitude <= min other magnitude except documented partial hard limiting (>= 100 -> 127), exact equality with the min*-approximation and A-Min* recurrences over the table, and new() builds the table round(8 ln(1+e^(-t/8))).",
+    "note": "Category other: the float arithmetics (8 of 24 types), agreement with 2 atanh(prod tanh), the (d-2) ln 2 sandwich and degrees above 4 are not decided. libm values for the 128 table points come from the platform libm, computed natively each run.",
+}
+CHECKS["C18"] = {
+    "engine": "kani",
+    "design_ref": "DESIGN.md section 5, C18",
+    "technique": "Kani harnesses, one per name and clause over the finite domain of 36 names, plus a symbolic-string harness for non-members",
+    "text": "All 36 names: Display prints the name, FromStr and clap's ValueEnum parse it back to the same variant, clap offers it under exactly that string (and offers 36 values), and build_decoder returns the concrete type computed from the name (HL prefix -> horizontal_layered::Decoder, otherwise flooding::Decoder, over the arithmetic type of that name). Every ASCII string of up to 48 bytes that FromStr accepts equals the printed name of the result.",
+    "note": "Trusted: Kani/CBMC; the concrete type is observed through the guarded hook verif_type_name; 'behaves exactly like the generic decoder' is reduced to type identity (same monomorphised code); new() determinism assumed. clap's parser on non-member strings is not covered.",
+}
+CHECKS["C15"] = {
+    "engine": "kani",
+    "design_ref": "DESIGN.md section 5, C15",
+    "technique": "bounded Kani harnesses with symbolic contents on the real ndarray-based functions",
+    "text": "BOUNDED stand-in (never counted as proved): the stated permutation and inverse for small interleaver shapes (2 in the quick tier, 12 in the thorough tier, symbolic direction and contents), and keep/restore/rate/error behaviour for every puncturing pattern of length <= 4 with block sizes 1 and 2.",
+    "note": "Bounds per harness are listed in the evidence. ndarray code is outside Verus, so no unbounded contract is in reach.",
+}
+CHECKS["C14"] = {
+    "engine": "kani",
+    "design_ref": "DESIGN.md section 5, C14",
+    "technique": "Kani harnesses on the real modulators/demodulators: constellation facts complete over all 8 triples, BPSK sign structure over all samples and sigma",
+    "text": "PARTIAL: constellation (DVB-S2 Gray mapping, unit energy), BPSK mapping and LLR sign structure, and noiseless hard decisions are decided; that the soft values equal the exact posterior log-ratio is NOT decided (floating-point equivalence did not finish in CBMC).",
+    "note": "A change of the LLR scale factor or of an 8PSK soft-value partition that keeps the hard decisions at the eight noiseless points is not detected.",
+}
 NOT_APPLICABLE = {
     "C03": "check under construction (DESIGN.md section 5, C03)",
-    "C04": "check under construction (DESIGN.md section 5, C04)",
-    "C05": "check under construction (DESIGN.md section 5, C05)",
-    "C14": "check under construction (DESIGN.md section 5, C14)",
-    "C15": "check under construction (DESIGN.md section 5, C15)",
-    "C18": "check under construction (DESIGN.md section 5, C18)",
     "C02": "encoder: Array2<GF2> elimination, ndarray dot/concatenate and iter_all() are outside Verus; Kani cannot carry a symbolic SparseMatrix (measured blow-up); only GF(2) scalar laws are in reach and they do not decide the property",
     "C08": "alist text: fmt::Write, split, split_whitespace, parse - no str reasoning in Verus; in Kani the parser ends in SparseMatrix::new + insert, the measured blow-up",
     "C09": "systematic conversion: Array2<GF2> from a foreign crate cannot be linked into a single-file Verus run; Kani on all 2x3 matrices did not finish in 40 min",
